@@ -288,6 +288,10 @@ type c04Rebuild struct {
 	ExtraPos []int    `json:"extrapos"` // insertion positions
 	Inputs   []recipe `json:"inputs"`
 	Twins    bool     `json:"twins"`
+	// Alias > 0: the first document of the first input is in the corpus under further names as well, with the same
+	// text: names on both sides of a name-prefix rule of the scorer (BSD-..., Apache-...), names and variants that
+	// differ in case only. One more input is matched: that document with a line of rule words inserted.
+	Alias int `json:"alias,omitempty"`
 }
 
 func c04RebuildGen(t *rapid.T) interface{} {
@@ -303,6 +307,9 @@ func c04RebuildGen(t *rapid.T) interface{} {
 		c.Docs = append(c.Docs, lib.IntN(t, 0, len(assets())-1, "doc"))
 	}
 	c.Perm = lib.Perm(t, 32, "perm")
+	if lib.IntN(t, 0, 3, "aliased") == 0 {
+		c.Alias = lib.IntN(t, 1, 255, "alias")
+	}
 	c.Extra = lib.IntN(t, 0, 5, "extra")
 	for i := 0; i < c.Extra; i++ {
 		c.ExtraPos = append(c.ExtraPos, lib.IntN(t, 0, 40, "extraPos"))
@@ -335,6 +342,26 @@ func c04RebuildCheck(ci interface{}) lib.Outcome {
 		}
 	}
 	files := sel.files()
+	var aliasInput []byte
+	if c.Alias > 0 && len(c.Docs) > 0 {
+		all := assets()
+		d := all[((c.Docs[0]%len(all))+len(all))%len(all)]
+		names := [][2]string{{"BSD-Alias", d.Variant}, {"Plain-Alias", d.Variant}, {"plain-alias", d.Variant}, {"Plain-Alias", strings.ToUpper(d.Variant)},
+			{"Apache-Alias", d.Variant}, {"PHP-Alias", d.Variant}, {"LGPL-2.0-Alias", d.Variant}, {"Zed-Alias", d.Variant}}
+		for i, n := range names {
+			if c.Alias&(1<<uint(i)) != 0 {
+				files = append(files, corpusFile{d.Cat, n[0], n[1], d.Content})
+			}
+		}
+		lines := bytes.SplitAfter(d.Content, []byte("\n"))
+		mid := len(lines) / 2
+		aliasInput = append(aliasInput, bytes.Join(lines[:mid], nil)...)
+		if len(aliasInput) > 0 && aliasInput[len(aliasInput)-1] != '\n' {
+			aliasInput = append(aliasInput, '\n')
+		}
+		aliasInput = append(aliasInput, "bsd apache php library\n"...)
+		aliasInput = append(aliasInput, bytes.Join(lines[mid:], nil)...)
+	}
 	a := buildClassifier(c.Thr, files)
 	// permuted order
 	order := make([]int, 0, len(files))
@@ -368,11 +395,31 @@ func c04RebuildCheck(ci interface{}) lib.Outcome {
 	}
 	b := buildClassifier(c.Thr, files2)
 	multi := false
+	if aliasInput != nil {
+		ra, rb := a.Match(aliasInput), b.Match(aliasInput)
+		for k := 0; k < 3; k++ {
+			if again := a.Match(aliasInput); resultString(again) != resultString(ra) {
+				return lib.Outcome{Violation: fmt.Sprintf("threshold %v: corpus with one text under several names (alias mask %d): repeated Match calls on the same classifier give different Results\n%s", c.Thr, c.Alias, diffResults(ra, again))}
+			}
+		}
+		if resultString(ra) != resultString(rb) {
+			return lib.Outcome{Violation: fmt.Sprintf("threshold %v: corpus with one text under several names (alias mask %d), added in a different order (identity=%v) with %d unrelated documents, gives different Results for that text with a line of rule words inserted\n%s",
+				c.Thr, c.Alias, identity, c.Extra, diffResults(ra, rb))}
+		}
+	}
 	for i, r := range c.Inputs {
 		in := r.build(a)
 		in2 := r.build(b)
 		if !bytes.Equal(in, in2) {
 			return lib.Outcome{Skip: "oov-words-differ-between-corpora"}
+		}
+		if c.Alias > 0 {
+			ra := a.Match(in)
+			for k := 0; k < 2; k++ {
+				if again := a.Match(in); resultString(again) != resultString(ra) {
+					return lib.Outcome{Violation: fmt.Sprintf("threshold %v: corpus with one text under several names (alias mask %d): repeated Match calls on input %d (%s) give different Results\n%s", c.Thr, c.Alias, i, r.describe(), diffResults(ra, again))}
+				}
+			}
 		}
 		// "unrelated" is verified: no word of the input occurs in an added document
 		if c.Extra > 0 {
@@ -400,6 +447,9 @@ func c04RebuildCheck(ci interface{}) lib.Outcome {
 	}
 	if !identity {
 		o.Classes = append(o.Classes, "permuted-corpus")
+	}
+	if aliasInput != nil {
+		o.Classes = append(o.Classes, "one-text-under-several-names")
 	}
 	if o.Nontrivial {
 		var names []string
